@@ -42,16 +42,24 @@ Lemma descr_keys {I} F (items : list I) phi ks : descr F items phi -> (forall c,
   map (key_of (cols F) ks) (rows F) = map (fun it => map (phi it) ks) items.
 Proof. intros [_ F2] S. eapply Forall2_map_eq; [exact F2|]. intros a b H. unfold key_of. apply map_ext_in. intros c Ic. apply H, S, Ic. Qed.
 
+Lemma descr_set_col_aux {I} (cs : list string) c (f : I -> val) (phi : I -> string -> val) : forall rs (its : list I),
+  Forall (fun r : list val => List.length r = List.length cs) rs ->
+  Forall2 (fun row it => forall x, In x cs -> get cs row x = phi it x) rs its ->
+  Forall2 (fun row it => forall x, In x (add_end cs c) -> get (add_end cs c) row x = if eq_dec x c then f it else phi it x)
+          (map (fun p : list val * I => set_cell cs (fst p) c (f (snd p))) (combine rs its)) its.
+Proof.
+  intros rs its W F2. induction F2 as [|row it rs its Hr F2 IH]; cbn [combine map]; [constructor|].
+  inversion W as [|? ? Lr Wt]; subst. constructor; [|apply IH, Wt].
+  intros x Ix. cbn [fst snd]. rewrite (set_cell_get _ _ _ _ _ Lr). destruct (eq_dec x c) as [->|n]; [reflexivity|].
+  apply Hr. apply In_add_end in Ix. destruct Ix as [Ix|Ix]; [exact Ix|contradiction].
+Qed.
 Lemma descr_set_col {I} c (f : I -> val) F F' (items : list I) phi :
   descr F items phi -> pd_set_col c (map f items) F = Some F' ->
   descr F' items (fun it x => if eq_dec x c then f it else phi it x) /\ cols F' = add_end (cols F) c.
 Proof.
   intros [W F2] H. pose proof (width_set_col _ _ _ _ W H) as W'. destruct (pd_set_col_inv _ _ _ _ H) as [L [C R]].
   split; [|exact C]. split; [exact W'|]. rewrite C, R. rewrite combine_map_r, map_map. cbn [fst snd].
-  unfold width_ok in W. revert W F2. generalize (rows F) as rs. intros rs W F2. revert W.
-  induction F2 as [|row it rs its Hr F2 IH]; intros W; cbn [combine map]; [constructor|]. constructor; [|apply IH; inversion W; assumption].
-  intros x Ix. rewrite set_cell_get by (inversion W; assumption). destruct (eq_dec x c) as [->|n]; [reflexivity|].
-  apply Hr. apply In_add_end in Ix. destruct Ix as [Ix|Ix]; [exact Ix|contradiction].
+  apply descr_set_col_aux; assumption.
 Qed.
 
 Lemma descr_set_scalar {I} c v F (items : list I) phi :
@@ -117,4 +125,60 @@ Proof.
   - unfold width_ok. cbn [cols rows]. apply Forall_forall. intros r0 I0. unfold width_ok in W. rewrite Forall_forall in W. apply W.
     eapply Permutation_in; eassumption.
   - cbn [cols rows]. exact Fi.
+Qed.
+
+(* ------------------------------------------------------------------ groupby(...).transform: position inside the group *)
+Lemma tag_vals_nth_error (L : list (list val * val)) : forall n j x, nth_error L j = Some x -> nth_error (tag_vals n L) j = Some ((n + j)%nat, x).
+Proof.
+  induction L as [|y L IH]; intros n j x H; [destruct j; discriminate|]. destruct j as [|j]; simpl in *.
+  - inversion H; subst. rewrite Nat.add_0_r. reflexivity.
+  - rewrite (IH (S n) j x H). f_equal. f_equal. lia.
+Qed.
+Lemma tag_vals_length (L : list (list val * val)) n : List.length (tag_vals n L) = List.length L.
+Proof. revert n. induction L as [|y L IH]; intros n; simpl; [reflexivity|]. rewrite IH. reflexivity. Qed.
+
+Lemma filter_tag_vals_snd (Q : list val * val -> bool) (L : list (list val * val)) : forall n,
+  map (fun jkv : nat * (list val * val) => snd (snd jkv)) (filter (fun jkv => Q (snd jkv)) (tag_vals n L)) = map snd (filter Q L).
+Proof. induction L as [|y L IH]; intros n; simpl; [reflexivity|]. destruct (Q y); simpl; rewrite IH; reflexivity. Qed.
+
+Lemma tag_vals_tags_ge (L : list (list val * val)) : forall n p, In p (tag_vals n L) -> (n <= fst p)%nat.
+Proof. induction L as [|y L IH]; intros n p I; simpl in I; [contradiction|]. destruct I as [<-|I]; [simpl; lia|]. apply IH in I. lia. Qed.
+
+Lemma pos_of_tag_filter (Q : list val * val -> bool) (L : list (list val * val)) : forall n j x,
+  nth_error L j = Some x -> Q x = true ->
+  pos_of_tag (n + j) (map (fun jkv : nat * (list val * val) => (fst jkv, snd (snd jkv))) (filter (fun jkv => Q (snd jkv)) (tag_vals n L)))
+  = List.length (filter Q (firstn j L)).
+Proof.
+  induction L as [|y L IH]; intros n j x H Qx; [destruct j; discriminate|]. destruct j as [|j]; simpl in H.
+  - inversion H; subst y. simpl. rewrite Qx. simpl. rewrite Nat.add_0_r, Nat.eqb_refl. reflexivity.
+  - cbn [tag_vals filter firstn snd]. destruct (Q y) eqn:Qy; cbn [map pos_of_tag fst List.length].
+    + replace (Nat.eqb n (n + S j)) with false by (symmetry; apply Nat.eqb_neq; lia).
+      replace (n + S j)%nat with (S n + j)%nat by lia. rewrite (IH (S n) j x H Qx). reflexivity.
+    + replace (n + S j)%nat with (S n + j)%nat by lia. apply (IH (S n) j x H Qx).
+Qed.
+
+Lemma filter_map_comm' {X Y} (f : X -> Y) (p : Y -> bool) l : filter p (map f l) = map f (filter (fun x => p (f x)) l).
+Proof. induction l as [|x l IH]; simpl; [reflexivity|]. destruct (p (f x)); simpl; rewrite IH; reflexivity. Qed.
+
+Lemma grouped_apply_length f rkeys vals : List.length (grouped_apply f rkeys vals) = List.length (combine rkeys vals).
+Proof. unfold grouped_apply. rewrite map_length, tag_vals_length. reflexivity. Qed.
+
+Lemma grouped_apply_nth {I} (f : list val -> list val) (K : I -> list val) (V : I -> val) (S : list I) j it :
+  nth_error S j = Some it ->
+  nth j (grouped_apply f (map K S) (map V S)) VNull
+  = nth (List.length (filter (fun it' => keys_eqv (K it) (K it')) (firstn j S)))
+        (f (map V (filter (fun it' => keys_eqv (K it) (K it')) S))) VNull.
+Proof.
+  intros H. unfold grouped_apply. set (L := combine (map K S) (map V S)).
+  assert (L = map (fun x => (K x, V x)) S) as EL by (unfold L; rewrite combine_map_l, combine_self_map, map_map; reflexivity).
+  assert (nth_error L j = Some (K it, V it)) as HL by (rewrite EL; apply (map_nth_error (fun x => (K x, V x))), H).
+  pose proof (tag_vals_nth_error L 0 j _ HL) as HT. cbn [Nat.add] in HT.
+  rewrite (nth_indep _ VNull (nth 0 (map (fun _ => VNull) (tag_vals 0 L)) VNull)) by (rewrite map_length, tag_vals_length; apply nth_error_Some; congruence).
+  erewrite (nth_error_nth (map _ (tag_vals 0 L))); [|apply map_nth_error, HT]. cbn [fst snd].
+  set (Q := fun kv : list val * val => keys_eqv (K it) (fst kv)).
+  change (fun jkv : nat * (list val * val) => keys_eqv (K it) (fst (snd jkv))) with (fun jkv : nat * (list val * val) => Q (snd jkv)).
+  rewrite (map_map (fun jkv : nat * (list val * val) => (fst jkv, snd (snd jkv))) snd). cbn [snd].
+  rewrite (filter_tag_vals_snd Q L 0).
+  rewrite <- (Nat.add_0_l j) at 1. rewrite (pos_of_tag_filter Q L 0 j (K it, V it) HL) by (unfold Q; cbn [fst]; apply keys_eqv_refl).
+  rewrite EL. rewrite firstn_map, !filter_map_comm', map_length, map_map. reflexivity.
 Qed.
